@@ -63,6 +63,8 @@ type Case struct {
 	Enum  bool   `json:"enum,omitempty"`
 	Tasks [][]Op `json:"tasks"`
 	// schedule
+	// HoldPct: see sched.Config.HoldPct
+	HoldPct int `json:"hold_pct,omitempty"`
 	Policy    string   `json:"policy"`
 	SwitchPct int      `json:"switch_pct"`
 	YieldPct  int      `json:"yield_pct"`
@@ -275,6 +277,7 @@ func (e *engine) Generate(seed uint64, idx int, tier string, avoid []harness.Fin
 	c.SwitchPct = []int{5, 20, 50, 90}[r.Intn(4)]
 	c.YieldPct = []int{0, 10, 50, 100}[r.Intn(4)]
 	c.PCTDepth = 1 + r.Intn(3)
+	c.HoldPct = []int{0, 0, 25, 60}[r.Intn(4)]
 	b, _ := json.Marshal(c)
 	return b
 }
@@ -931,7 +934,7 @@ func (e *engine) Execute(raw json.RawMessage) (vd harness.Verdict) {
 	for _, ops := range c.Tasks {
 		total += len(ops)
 	}
-	s := sched.New(sched.Config{Policy: c.Policy, SwitchPct: c.SwitchPct, YieldPct: c.YieldPct, PCTDepth: c.PCTDepth,
+	s := sched.New(sched.Config{HoldPct: c.HoldPct, Policy: c.Policy, SwitchPct: c.SwitchPct, YieldPct: c.YieldPct, PCTDepth: c.PCTDepth,
 		PCTHorizon: 200 * (total + 1), Salt: c.Salt, Budget: 4000*(total+1) + 50000}, tp)
 	if tf := os.Getenv("C10_TRACE"); tf != "" {
 		if f, err := os.Create(tf + w.sfx); err == nil {
